@@ -19,6 +19,11 @@
  * status = OK | CRASH sig=<n> | EXIT code=<n> | HANG
  */
 #include "coap3/coap_libcoap_build.h"
+/* the driver is linked with --wrap=malloc to see libcoap's direct malloc() calls (uthash); the
+ * driver's own allocations go straight to the C library */
+#define FA_WRAP_MALLOC 1
+void *__real_malloc(size_t n);
+#define malloc(n) __real_malloc(n)
 #include "common/util.h"
 #include "common/dump.h"
 #include "common/vnet.h"
@@ -212,6 +217,43 @@ static void h_echo(coap_resource_t *r, coap_session_t *s, const coap_pdu_t *req,
   if (!coap_add_data_large_response(r, s, req, resp, q, COAP_MEDIATYPE_APPLICATION_OCTET_STREAM,
                                     -1, 0, len, out, NULL, NULL))
     coap_pdu_set_code(resp, COAP_RESPONSE_CODE_INTERNAL_ERROR);
+}
+
+/* handler that keeps a per-request cache entry (coap_cache_*): first call creates it with a
+ * counter as application data, later calls find it and count */
+static int n_cache_new = 0, n_cache_hit = 0, cache_no_pdu = 0;
+static void cache_free_cb(void *d) {
+  coap_free_type(COAP_STRING, d);
+}
+static void h_cache(coap_resource_t *r, coap_session_t *s, const coap_pdu_t *req,
+                    const coap_string_t *q, coap_pdu_t *resp) {
+  (void)r; (void)q;
+  W.n_get++;
+  coap_cache_entry_t *e = coap_cache_get_by_pdu(s, req, COAP_CACHE_IS_SESSION_BASED);
+  if (!e) {
+    e = coap_new_cache_entry(s, req, COAP_CACHE_RECORD_PDU, COAP_CACHE_IS_SESSION_BASED, 0);
+    if (!e) {
+      coap_pdu_set_code(resp, COAP_RESPONSE_CODE_INTERNAL_ERROR);
+      return;
+    }
+    int *cnt = (int *)coap_malloc_type(COAP_STRING, sizeof(int));
+    if (!cnt) {
+      coap_delete_cache_entry(coap_session_get_context(s), e);
+      coap_pdu_set_code(resp, COAP_RESPONSE_CODE_INTERNAL_ERROR);
+      return;
+    }
+    *cnt = 0;
+    coap_cache_set_app_data(e, cnt, cache_free_cb);
+    n_cache_new++;
+  } else {
+    n_cache_hit++;
+  }
+  if (!coap_cache_get_pdu(e)) cache_no_pdu++;     /* asked for with COAP_CACHE_RECORD_PDU */
+  int *cnt = (int *)coap_cache_get_app_data(e);
+  char buf[16];
+  int n = snprintf(buf, sizeof(buf), "c%d", cnt ? ++*cnt : -1);
+  coap_pdu_set_code(resp, COAP_RESPONSE_CODE_CONTENT);
+  coap_add_data(resp, (size_t)n, (const uint8_t *)buf);
 }
 
 static void h_loop(coap_resource_t *r, coap_session_t *s, const coap_pdu_t *req,
@@ -685,6 +727,185 @@ static void sc_echo(void) {
   world_down();
 }
 
+static void sc_cache(void) {
+  /* coap_cache_derive_key / coap_new_cache_entry / lookup / application data with release
+   * callback; the entries are released with the context */
+  prologue(COAP_BLOCK_USE_LIBCOAP | COAP_BLOCK_SINGLE_BODY);
+  coap_resource_t *r = mkres("cache", h_cache, NULL);
+  if (r) coap_add_resource(W.srv, r);
+  static const uint16_t ign[] = {COAP_OPTION_RTAG};
+  R("ignore=%d", coap_cache_ignore_options(W.srv, ign, 1));
+  one_request("c1", COAP_MESSAGE_CON, COAP_REQUEST_CODE_GET, "cache");
+  one_request("c2", COAP_MESSAGE_CON, COAP_REQUEST_CODE_GET, "cache");
+  if (W.last_code == COAP_RESPONSE_CODE_CONTENT && n_cache_new + n_cache_hit == 2 && n_cache_new == 1 &&
+      W.last_hash != fnv((const uint8_t *)"c2", 2))
+    R("bad=cache-counter-wrong");
+  if (cache_no_pdu) R("bad=cache-entry-without-the-recorded-pdu");
+  finish_with_canary();
+  world_down();
+}
+
+static void sc_multi(void) {
+  /* several client sessions, a server that keeps at most two idle sessions, idle time-out and
+   * re-creation of a server session */
+  prologue(COAP_BLOCK_USE_LIBCOAP | COAP_BLOCK_SINGLE_BODY);
+  coap_context_set_max_idle_sessions(W.srv, 2);
+  coap_context_set_session_timeout(W.srv, 30);
+  coap_session_t *extra[2] = {NULL, NULL};
+  one_request("s0", COAP_MESSAGE_CON, COAP_REQUEST_CODE_GET, "r");
+  for (int i = 0; i < 2; i++) {
+    extra[i] = vn_new_client(W.cli, &W.ep->bind_addr);
+    R("sess%d=%d", i, extra[i] != NULL);
+    if (!extra[i]) continue;
+    coap_session_t *keep = W.cs;
+    W.cs = extra[i];
+    one_request(i ? "s2" : "s1", COAP_MESSAGE_NON, COAP_REQUEST_CODE_GET, "r");
+    W.cs = keep;
+  }
+  /* let the server's idle sessions expire, then talk again on the first session */
+  vn_advance(60000);
+  pump(5000);
+  one_request("again", COAP_MESSAGE_CON, COAP_REQUEST_CODE_GET, "r");
+  finish_with_canary();
+  for (int i = 0; i < 2; i++)
+    if (extra[i]) {
+      vn_unregister_client(extra[i]);
+      coap_session_release(extra[i]);
+    }
+  world_down();
+}
+
+static void sc_qblock(void) {
+  /* RFC 9177 Q-Block negotiated on both sides: NON upload and NON download of multi-block
+   * bodies (the recovery logic is only exercised as far as the scripted loss-free network and
+   * the injected failures take it) */
+  prologue(COAP_BLOCK_USE_LIBCOAP | COAP_BLOCK_SINGLE_BODY | COAP_BLOCK_TRY_Q_BLOCK);
+  coap_pdu_t *p = mk_req(W.cs, COAP_MESSAGE_NON, COAP_REQUEST_CODE_PUT, "up", NULL, NULL);
+  R("pdu=%d", p != NULL);
+  if (p) {
+    int a = coap_add_data_large_request(W.cs, p, UP_LEN, up_body, NULL, NULL);
+    R("large=%d", a);
+    if (!a) {
+      coap_delete_pdu(p);
+      p = NULL;
+    }
+  }
+  if (p) R("send=%d", send_tracked(W.cs, p) != COAP_INVALID_MID);
+  pump(300000);
+  R("resp=%d code=%d put=%d putlen=%zu", W.n_resp, W.last_code, W.n_put, W.put_len);
+  if (W.n_put && (W.put_len != UP_LEN || W.put_hash != fnv(up_body, UP_LEN)))
+    R("bad=wrong-body-at-server");
+  int before = W.n_resp;
+  W.last_code = 0;
+  W.last_len = 0;
+  p = mk_req(W.cs, COAP_MESSAGE_NON, COAP_REQUEST_CODE_GET, "big", NULL, NULL);
+  R("pdu2=%d", p != NULL);
+  if (p) R("send2=%d", send_tracked(W.cs, p) != COAP_INVALID_MID);
+  pump(300000);
+  R("resp2=%d code=%d len=%zu", W.n_resp - before, W.last_code, W.last_len);
+  if (W.n_resp > before && W.last_code == COAP_RESPONSE_CODE_CONTENT) {
+    if (W.last_len < BIG_LEN) R("bad=partial-body-delivered");
+    else if (W.last_len != BIG_LEN || W.last_hash != fnv(big_body, BIG_LEN)) R("bad=corrupt-body");
+  }
+  finish_with_canary();
+  world_down();
+}
+
+static void sc_persist(void) {
+  /* observe persistence (coap_persist_*): phase 1, without faults, leaves the three files of a
+   * server with one dynamically created resource and one observer; phase 2, armed, is the
+   * restart: coap_persist_startup() on the files, a notification to the restored observer, a
+   * GET on the restored resource, coap_persist_stop(), tear-down */
+  char f_dyn[96], f_obs[96], f_val[96];
+  snprintf(f_dyn, sizeof(f_dyn), "/var/tmp/verif.c18.%d.dyn", (int)getpid());
+  snprintf(f_obs, sizeof(f_obs), "/var/tmp/verif.c18.%d.obs", (int)getpid());
+  snprintf(f_val, sizeof(f_val), "/var/tmp/verif.c18.%d.val", (int)getpid());
+  prologue(COAP_BLOCK_USE_LIBCOAP | COAP_BLOCK_SINGLE_BODY);
+  fa_armed = 0;
+  int ok = coap_persist_startup(W.srv, f_dyn, f_obs, f_val, 1);
+  coap_resource_t *u = coap_resource_unknown_init(h_unknown_put);
+  if (u) coap_add_resource(W.srv, u);
+  one_request("p", COAP_MESSAGE_CON, COAP_REQUEST_CODE_PUT, "made");
+  uint8_t tok[8];
+  size_t tl = 0;
+  coap_pdu_t *p = mk_req(W.cs, COAP_MESSAGE_CON, COAP_REQUEST_CODE_GET, "obs", tok, &tl);
+  if (p && coap_insert_option(p, COAP_OPTION_OBSERVE, 0, NULL)) coap_send(W.cs, p);
+  pump(120000);
+  W.obs_value = 1;
+  coap_resource_notify_observers(W.r_obs, NULL);
+  pump(120000);
+  uint16_t port = ntohs(W.ep->bind_addr.addr.sin.sin_port);
+  int phase1 = ok && u && W.n_resp >= 3;
+  coap_persist_stop(W.srv);
+  coap_free_context(W.srv);
+  W.srv = NULL;
+  W.ep = NULL;
+  W.r_small = W.r_big = W.r_up = W.r_obs = W.r_loop = NULL;
+  vn_nnodes = 0;
+  vn_register_client(W.cli, W.cs);
+  n_dyn = 0;
+  reslen = 0;
+  R("phase1=%d", phase1);
+  /* ---- the restart */
+  fa_armed = 1;
+  W.srv = coap_new_context(NULL);
+  R("srv=%d", W.srv != NULL);
+  if (W.srv) {
+    coap_context_set_block_mode(W.srv, COAP_BLOCK_USE_LIBCOAP | COAP_BLOCK_SINGLE_BODY);
+    coap_address_t a;
+    vn_addr4(&a, VN_LOOPBACK, port);
+    W.ep = coap_new_endpoint(W.srv, &a, COAP_PROTO_UDP);
+    if (W.ep) vn_register_ep(W.srv, W.ep);
+    W.r_small = mkres("r", h_small, NULL);
+    W.r_obs = mkres("obs", h_obs, NULL);
+    u = coap_resource_unknown_init(h_unknown_put);
+    R("ep=%d res=%d%d%d", W.ep != NULL, W.r_small != NULL, W.r_obs != NULL, u != NULL);
+    if (W.r_small) coap_add_resource(W.srv, W.r_small);
+    if (W.r_obs) {
+      coap_resource_set_get_observable(W.r_obs, 1);
+      coap_add_resource(W.srv, W.r_obs);
+    }
+    if (u) coap_add_resource(W.srv, u);
+    int st = coap_persist_startup(W.srv, f_dyn, f_obs, f_val, 1);
+    R("startup=%d dyn=%d", st, n_dyn);
+    int before = W.n_resp;
+    W.obs_value = 2;
+    W.last_len = 0;
+    int n = W.r_obs ? coap_resource_notify_observers(W.r_obs, NULL) : 0;
+    pump(120000);
+    R("notify=%d got=%d len=%zu", n, W.n_resp - before, W.last_len);
+    if (W.n_resp > before && W.last_code == COAP_RESPONSE_CODE_CONTENT &&
+        W.last_hash != fnv((const uint8_t *)"v2", 2))
+      R("bad=stale-or-wrong-notification");
+    if (W.ep) one_request("g", COAP_MESSAGE_CON, COAP_REQUEST_CODE_GET, "made");
+    if (!W.r_small || !W.ep) {
+      /* what could not be created under the fault is created now, with memory available */
+      int a = fa_armed;
+      fa_armed = 0;
+      if (!W.ep) {
+        coap_address_t a2;
+        vn_addr4(&a2, VN_LOOPBACK, port);
+        W.ep = coap_new_endpoint(W.srv, &a2, COAP_PROTO_UDP);
+        if (W.ep) vn_register_ep(W.srv, W.ep);
+      }
+      if (!W.r_small) {
+        W.r_small = mkres("r", h_small, NULL);
+        if (W.r_small) coap_add_resource(W.srv, W.r_small);
+      }
+      R("retry=%d%d", W.ep != NULL, W.r_small != NULL);
+      fa_armed = a;
+    }
+    finish_with_canary();
+    coap_persist_stop(W.srv);
+  }
+  world_down();
+  if (!getenv("FA_KEEP")) {
+    remove(f_dyn);
+    remove(f_obs);
+    remove(f_val);
+  }
+}
+
 static void sc_async(void) {
   /* separate response through coap_register_async (empty ACK first, CON response later) */
   prologue(COAP_BLOCK_USE_LIBCOAP | COAP_BLOCK_SINGLE_BODY);
@@ -1065,6 +1286,8 @@ static const scen_t scens[] = {
   {"pdu", sc_pdu},           {"teardown_busy", sc_teardown_busy}, {"resp508", sc_resp508},
   {"async", sc_async},       {"unknown", sc_unknown},   {"ping", sc_ping},
   {"oscore", sc_oscore},     {"obs_big", sc_obs_big},   {"echo", sc_echo},
+  {"cache", sc_cache},       {"multi", sc_multi},       {"qblock", sc_qblock},
+  {"persist", sc_persist},
   {NULL, NULL}};
 
 /* ------------------------------------------------------------------ child / parent */
@@ -1077,9 +1300,10 @@ static void wr(int fd, const char *s, size_t n) {
   }
 }
 
-static void child_main(const scen_t *sc, long k1, long k2, int want_sites, int fd) {
+static void child_main(const scen_t *sc, long k1, long k2, int want_sites, long uj, int fd) {
   char tmp[256];
   fa_notice_fd = fd;
+  fa_u_fail_at = uj;
   fa_nfail = 0;
   if (k1 > 0) fa_fail_at[fa_nfail++] = k1;
   if (k2 > 0) fa_fail_at[fa_nfail++] = k2;
@@ -1089,10 +1313,25 @@ static void child_main(const scen_t *sc, long k1, long k2, int want_sites, int f
   sc->fn();
   fa_armed = 0;
   fa_final_sweep();
-  int n = snprintf(tmp, sizeof(tmp), "D n=%ld inj=%d canary=%d guard=%ld poison=%ld live=%ld tm=%ld\n",
+  int n = snprintf(tmp, sizeof(tmp), "D n=%ld inj=%d canary=%d guard=%ld poison=%ld live=%ld tm=%ld un=%ld\n",
                    fa_attempts, fa_injected, canary_result, fa_guard_bad, fa_poison_bad, fa_live,
-                   fa_type_mismatch);
+                   fa_type_mismatch, fa_u_attempts);
   wr(fd, tmp, (size_t)n);
+  /* what is still allocated: id:type:size (naming a leak in the report) */
+  wr(fd, "K ", 2);
+  {
+    int any = 0;
+    for (unsigned i = 0; i < FA_TAB && any < 12; i++)
+      if (fa_tab[i].p && fa_tab[i].live) {
+        n = snprintf(tmp, sizeof(tmp), "%s%ld:%d:%zu:%p/%p/%p/%p", any ? "," : "", fa_tab[i].id,
+                     fa_tab[i].type, fa_tab[i].size, fa_tab[i].caller[0], fa_tab[i].caller[1],
+                     fa_tab[i].caller[2], fa_tab[i].caller[3]);
+        wr(fd, tmp, (size_t)n);
+        any++;
+      }
+    if (!any) wr(fd, "-", 1);
+  }
+  wr(fd, "\n", 1);
   wr(fd, "R ", 2);
   wr(fd, resbuf, reslen);
   wr(fd, "\n", 1);
@@ -1166,7 +1405,12 @@ static void run_fa(void) {
     return;
   }
   long k1 = atol(vtok[2]), k2 = atol(vtok[3]);
-  int want_sites = vntok > 4 && strcmp(vtok[4], "S") == 0;
+  int want_sites = 0;
+  long uj = 0;        /* U<j>: fail the j-th direct malloc() of libcoap (uthash) */
+  for (int i = 4; i < vntok; i++) {
+    if (strcmp(vtok[i], "S") == 0) want_sites = 1;
+    else if (vtok[i][0] == 'U') uj = atol(vtok[i] + 1);
+  }
   int pfd[2];
   if (pipe(pfd) < 0) {
     printf("ERROR pipe\n");
@@ -1176,7 +1420,7 @@ static void run_fa(void) {
   pid_t pid = fork();
   if (pid == 0) {
     close(pfd[0]);
-    child_main(sc, k1, k2, want_sites, pfd[1]);
+    child_main(sc, k1, k2, want_sites, uj, pfd[1]);
     _exit(0);
   }
   close(pfd[1]);
@@ -1185,13 +1429,23 @@ static void run_fa(void) {
   close(pfd[0]);
   int st = 0;
   waitpid(pid, &st, 0);
-  char *d, *r, *s, *t, *l, *inj, *e;
+  {
+    /* files of the persist scenario, should the child have died before removing them */
+    static const char *ext[] = {"dyn", "obs", "val", "obs.tmp", "dyn.tmp", "val.tmp"};
+    char fn[96];
+    for (unsigned i = 0; i < sizeof(ext) / sizeof(ext[0]); i++) {
+      snprintf(fn, sizeof(fn), "/var/tmp/verif.c18.%d.%s", (int)pid, ext[i]);
+      if (!getenv("FA_KEEP")) remove(fn);
+    }
+  }
+  char *d, *r, *s, *t, *l, *inj, *e, *kk;
   field(buf, 'D', &d);
   field(buf, 'R', &r);
   field(buf, 'S', &s);
   field(buf, 'T', &t);
   field(buf, 'L', &l);
   field(buf, 'I', &inj);
+  field(buf, 'K', &kk);
   int complete = strstr(buf, "\nE\n") != NULL || strncmp(buf, "E\n", 2) == 0;
   (void)e;
   if (WIFSIGNALED(st)) {
@@ -1224,7 +1478,8 @@ static void run_fa(void) {
     }
     if (first) printf("-");
   }
-  printf(" %s", d ? d : "n=? inj=? canary=? guard=? poison=? live=? tm=?");
+  printf(" %s", d ? d : "n=? inj=? canary=? guard=? poison=? live=? tm=? un=?");
+  printf(" leaked=%s", kk ? kk : "?");
   printf(" sends=%s", s ? s : "?");
   printf(" res=");
   if (r) {
@@ -1236,7 +1491,7 @@ static void run_fa(void) {
   if (want_sites) printf(" sites=%s", l ? l : "?");
   printf("\n");
   free(buf);
-  free(d); free(r); free(s); free(t); free(l); free(inj);
+  free(d); free(r); free(s); free(t); free(l); free(inj); free(kk);
 }
 
 /* ------------------------------------------------------------------ PDU-layer tie
